@@ -9,6 +9,7 @@ mod tok;
 mod mgen;
 mod c01;
 mod extract;
+mod c11;
 mod jsonmut;
 
 use std::collections::HashMap;
@@ -53,6 +54,7 @@ fn main() {
         "c13" => c13::run(&o),
         "c01" => c01::run(&o),
         "extract" => extract::run(&o),
+        "c11" => c11::run(&o),
         "c09" => c01::run_c09(&o),
         other => {
             eprintln!("unknown stream {other}");
